@@ -21,6 +21,7 @@ open Gwb
 #print axioms C12_rejected_in_item
 #print axioms C12_undeclared_required_key_accepted
 #print axioms C12_default_excuses_required
+#print axioms C12_temps_wellformed_of_basic
 #check @C12_parse_plume_wellformed
 #check @C12_parse_plume_depths_ascending
 #check @C12_parsed_plume_safe
@@ -42,3 +43,4 @@ open Gwb
 #check @C12_rejected_in_item
 #check @C12_undeclared_required_key_accepted
 #check @C12_default_excuses_required
+#check @C12_temps_wellformed_of_basic
